@@ -160,7 +160,10 @@ func main() {
 		for _, k := range kinds {
 			k := k
 			seqx.Explore(r, seqx.Scenario[op]{Name: "seq-" + k.Name, Enabled: func(h []op) []op { return k.Ops },
-				Exec: func(h []op) (string, string, *seqx.Failure) { return seqExec(k, h) }, MaxDepth: depth, Workers: 16})
+				Exec: func(h []op) (string, string, *seqx.Failure) { return seqExec(k, h) }, MaxDepth: depth, Workers: 16,
+				// seqExec returns no canonical key (every history is executed anyway); stated explicitly so that it stays
+				// true for the short histories should a key ever be added
+				NoMergeDepth: 4})
 		}
 	}
 	// Part 2: concurrent programs, sharded over processes
